@@ -8,6 +8,7 @@ import (
 	"fmt"
 	"os"
 	"path/filepath"
+	"runtime"
 	"runtime/pprof"
 	"sort"
 	"strconv"
@@ -323,3 +324,28 @@ func Harness(format string, a ...any) {
 
 // J renders v as compact JSON (for signatures / samples).
 func J(v any) string { b, _ := json.Marshal(v); return string(b) }
+
+// PanicSite names the innermost frame of the repository under verification on the current (panicking) goroutine's
+// stack and returns a trimmed copy of the stack. For use inside a deferred recover.
+func PanicSite() (site string, stack string) {
+	buf := make([]byte, 16<<10)
+	buf = buf[:runtime.Stack(buf, false)]
+	stack = string(buf)
+	site = "unknown-site"
+	lines := strings.Split(stack, "\n")
+	for i := 0; i+1 < len(lines); i++ {
+		l := lines[i]
+		if strings.HasPrefix(l, "github.com/honeycombio/refinery/") && !strings.Contains(lines[i+1], "/verif/") {
+			f := strings.TrimPrefix(l, "github.com/honeycombio/refinery/")
+			if k := strings.LastIndex(f, "("); k > 0 {
+				f = f[:k]
+			}
+			site = f
+			break
+		}
+	}
+	if len(stack) > 3000 {
+		stack = stack[:3000] + "…"
+	}
+	return
+}
